@@ -2290,8 +2290,8 @@ class Fouriergate(Gate):
         super().__init__([np.pi / 2])
 
     def _decompose(self, reg, **kwargs):
-        # into a rotation
-        theta = np.pi / 2
+        # into a rotation (p[0] differs from pi/2 when Fourier gates have been merged)
+        theta = self.p[0]
         return [Command(Rgate(theta), reg)]
 
     def __str__(self):
